@@ -96,7 +96,7 @@ example :
     let s0 : State := { extFiles := ["a", "b"] }
     let s := [Op.invoke 0 5 "h", .register "a" [.invoke] "", .register "b" [] "", .rtNext, .agNext "a" "", .agNext "b" "",
               .rtResponse (some 1) 3 "r" false, .rtNext].foldl (step 0) s0
-    s.out = ["ev invokeRuntimeDone:success:-"] ∧ (step 0 s (.agNext "a" "")).out = ["caller0 done err=ok body=bytes:r"] := by
+    s.outs = ["ev invokeRuntimeDone:success:-"] ∧ (step 0 s (.agNext "a" "")).outs = ["caller0 done err=ok body=bytes:r"] := by
   decide
 
 end Rie.Props.C04
